@@ -77,10 +77,10 @@ TABLE = {
     "LengthDelimited::into_inner|explicit:assert:panic#2": {"class": "api", "need": [],
         "why": "write buffer is empty after a completed flush; callers flush before into_inner"},
     # ---------------------------------------------------------------- multistream-select messages (protocol.rs, dialer/listener)
-    MD + "assert:Overflow:Overflow#1": {"class": "guard", "need": [["Some(&10)", "==", "slice::last(msg)"]], "why": "msg.last() is Some so msg.len() >= 1"},
-    MD + "index:index#1": {"class": "guard", "need": [["Some(&10)", "==", "slice::last(msg)"]], "why": "msg[..len-1] with len >= 1"},
-    MD + "assert:Overflow:Overflow#2": {"class": "guard", "need": [["Some(&10)", "==", "slice::last(msg)"]], "why": "as above"},
-    MD + "precond:split_to#1": {"class": "guard", "need": [["Some(&10)", "==", "slice::last(msg)"]], "why": "split_to(len - 1) <= len"},
+    MD + "assert:Overflow:Overflow#1": {"class": "guard", "need": [["0", "!=", "len(msg)"]], "why": "msg.last() is Some so msg.len() >= 1"},
+    MD + "index:index#1": {"class": "guard", "need": [["0", "!=", "len(msg)"]], "why": "msg[..len-1] with len >= 1"},
+    MD + "assert:Overflow:Overflow#2": {"class": "guard", "need": [["0", "!=", "len(msg)"]], "why": "as above"},
+    MD + "precond:split_to#1": {"class": "guard", "need": [["0", "!=", "len(msg)"]], "why": "split_to(len - 1) <= len"},
     MD + "assert:Overflow:Overflow#3": {"class": "guard", "need": [["0", "!=", "len"]], "why": "len - 1 behind len != 0"},
     MD + "assert:BoundsCheck:BoundsCheck#1": {"class": "guard", "need": [["0", "!=", "len"], ["len", "<=", "len(tail)"]], "why": "tail[len-1] with 1 <= len <= tail.len()"},
     MD + "assert:Overflow:Overflow#4": {"class": "guard", "need": [["0", "!=", "len"]], "why": "len - 1 behind len != 0"},
